@@ -139,7 +139,7 @@ class World:
             obs["ann"] = self.collect_ann(tree)
         return obs
 
-    def do_check(self, pid, annotate):
+    def do_check(self, pid, annotate, stack=None):
         code = self.spec["programs"][pid]
         self.clock.reset()
         self.tokens.begin(pid)
@@ -149,6 +149,8 @@ class World:
             return {"import_error": self.norm(repr(e))[:300]}
         self.modules[pid] = mod
         try:
+            if stack:
+                return self.limited(lambda: self.run_visitor(pid, code, mod, annotate), stack)
             return self.run_visitor(pid, code, mod, annotate)
         except BaseException as e:
             return {"escaped": self.norm("".join(traceback.format_exception_only(type(e), e)))[:500]}
@@ -341,6 +343,22 @@ class World:
         does so at the same point in an isolated and in a shared-Checker world."""
         return fn()
 
+    def limited(self, fn, margin):
+        """Fault: stack exhaustion.  The check runs with only `margin` Python frames left, so the
+        interpreter raises RecursionError at whatever point of the checker the stack runs out -
+        what a deeply nested source, or a caller that is itself deep in the stack, does for real."""
+        depth = 0
+        f = sys._getframe()
+        while f is not None:
+            depth += 1
+            f = f.f_back
+        old = sys.getrecursionlimit()
+        sys.setrecursionlimit(depth + margin)
+        try:
+            return fn()
+        finally:
+            sys.setrecursionlimit(old)
+
     def run(self):
         annotate_default = bool(self.spec.get("annotate", True))
         for i, op in enumerate(self.spec["ops"]):
@@ -353,6 +371,10 @@ class World:
                 if op.get("isolate"):
                     rec["iso"] = True
                     rec["obs"] = self.isolated(lambda: self.do_check(pid, ann))
+                elif op.get("stack"):
+                    rec["stack"] = op["stack"]
+                    rec["obs"] = self.direct(lambda: self.do_check(pid, ann, stack=op["stack"]))
+                    rec["inv"] = self.invariants()
                 else:
                     rec["obs"] = self.direct(lambda: self.do_check(pid, ann))
                     rec["inv"] = self.invariants()
